@@ -441,6 +441,13 @@ let cmd_pg (x : sx) : sx =
   match x with
   | L [A "pg-opts"; h; k; m] ->
       res_sx (fun vs -> sorted_sx (List.map n_sx vs)) (pg_opts (sx_pghost h) (sx_pgkey k) (sx_pgmap m))
+  | L [A "pg-cvec"; g; root] ->
+      (* not-equal constraints: the arguments after the first are a set (hash order in the implementation) *)
+      let canon (c : (pgkey, pgpred) constraint0) = match c.cpred, c.cargs with
+        | IsNotEqual _, k :: others ->
+            { c with cargs = k :: List.sort (fun a b -> match pgkey_cmp a b with Lt -> -1 | Eq -> 0 | Gt -> 1) others }
+        | _ -> c in
+      res_sx (fun cs -> L (List.map (fun c -> pgcons_sx (canon c)) cs)) (pg_constraint_vec (sx_pghost g) (sx_n root))
   | L [A "pg-walk"; h; n; p] ->
       L (List.map n_sx (walk_nodes (sx_pghost h) (sx_n n) (sx_port p)))
   | L [A "pg-single"; cs; h] ->
@@ -475,7 +482,7 @@ let dispatch (x : sx) : sx =
   | L (A "c15" :: args) -> cmd_c15 args
   | L (A ("tree" | "powerset" | "conditioned" | "with-children" | "pairwise" | "transitive") :: _) -> cmd_c10 x
   | L ((A ("aut-run" | "cvec" | "single" | "naive" | "cert" | "occ")) :: _ as args) -> cmd_engine args
-  | L (A ("pg-opts" | "pg-walk" | "pg-single" | "pg-naive" | "pg-run" | "pg-cert") :: _) -> cmd_pg x
+  | L (A ("pg-opts" | "pg-walk" | "pg-single" | "pg-naive" | "pg-run" | "pg-cert" | "pg-cvec") :: _) -> cmd_pg x
   | _ -> failwith "unknown command"
 
 let () =
